@@ -22,6 +22,32 @@ CTOR = {t: t.upper() for t in TAGS}          # Gallina constructor of Model.dt
 NOT_INTEGRAL = 1000003                       # stands for "a value that is neither 0 nor 1" in a Gallina pack
 
 
+# the _FillValue each stored type is written with (the same table as in drive/c12.py)
+FILLS = {"i1": -99, "u1": 250, "u2": 60000, "u4": 60000, "u8": 60000}
+OPTS = [{"mask": True, "unpack": True}, {"mask": False, "unpack": True}, {"mask": True, "unpack": False},
+        {"mask": False, "unpack": False}]
+
+
+def fill_of(tag):
+    return FILLS.get(tag, -999)
+
+
+def optkey(o):
+    o = o or {}
+    return ("m" if o.get("mask", True) else "-") + ("u" if o.get("unpack", True) else "-")
+
+
+def rand_opts(rng):
+    """The read options of a case: the defaults 40 % of the time, else one of the three other combinations."""
+    return dict(OPTS[0]) if rng.random() < 0.4 else dict(rng.choice(OPTS[1:]))
+
+
+def ex(v, key):
+    """What eager access under the read options `key` sees of variable v: (flat, dtype tag)."""
+    e = v["exp"][key]
+    return e["flat"], e["dtype"]
+
+
 def pk(unsigned=False, scale=None, offset=None):
     return {"unsigned": unsigned, "scale": scale, "offset": offset}
 
@@ -29,7 +55,13 @@ def pk(unsigned=False, scale=None, offset=None):
 # minimised earlier failures (run first)
 _EQ_OWN_COPY = [["copy", 0], ["tomem", 1], ["eq", 0, 1], ["eq", 1, 0], ["arr", 0],
                 ["sub", 0, [["list", [1, 0]]]], ["arr", 2], ["first", 0]]
+_COPY_FIRST = [["copy", 0], ["sub", 1, [["slice", 1, 3, None]]], ["arr", 2], ["eq", 0, 1], ["arr", 1], ["tomem", 1],
+               ["arr", 1], ["eq", 1, 0], ["arr", 0]]
 CORPUS_OPS = [
+    # seed C12-s5: a copy of a file array must keep the read options (run under all four combinations):
+    # copy, then subspace of the copy, then its array - before anything else has been fetched
+    {"vars": [{"name": "a", "shape": [4], "flat": [1, 2, None, 4], "dtype": "i2", "pack": pk(scale=["f4", 2], offset=["f4", 7])}],
+     "heap": ["a"], "ops": _COPY_FIRST},
     # F12e / seed C12-s3: packed variables whose declared data type must be the realised one
     # (short data, float32 scale_factor 2, float64 add_offset exactly 0: float64)
     {"vars": [{"name": "a", "shape": [3], "flat": [4, -5, 6], "dtype": "i2", "pack": pk(scale=["f4", 2], offset=["f8", 0])}],
@@ -178,6 +210,7 @@ def malformed_idx(rng, shape):
 class OCell:
     def __init__(self, shape, flat, missing=False, disk=True, dtype="i8"):
         self.shape, self.flat, self.missing, self.disk, self.dtype = list(shape), list(flat), missing, disk, dtype
+        self.origin = None     # index of the starting object this one is a copy (of a copy ...) of
 
     def size(self):
         return int(np.prod(self.shape)) if self.shape else 1
@@ -191,6 +224,7 @@ def oracle_step(heap, op):
     info = {"disk": c.disk, "missing": c.missing, "want": None}
     if k == "copy":
         heap.append(OCell(c.shape, c.flat, c.missing, c.disk, c.dtype))
+        heap[-1].origin = c.origin
         info["disk"] = False
         return {"none": True}, info
     if k == "sub":
@@ -267,8 +301,18 @@ def plain_fallback(v):
     w = {"name": v["name"], "shape": v["shape"], "flat": [(5 * k) % 23 - 7 for k in range(n)], "dtype": "i8", "pack": None}
     if v.get("group"):
         w["group"] = v["group"]
-    w["exp_flat"], w["exp_dtype"] = list(w["flat"]), "i8"
+    set_plain_exp(w)
     return w
+
+
+def set_plain_exp(v):
+    """A variable without packing attributes is its own reference; unmasked, a missing element shows the fill value."""
+    fill = fill_of(v["dtype"])
+    v["exp"] = {}
+    for o in OPTS:
+        v["exp"][optkey(o)] = {"flat": [x if (x is not None or o["mask"]) else fill for x in v["flat"]],
+                               "dtype": v["dtype"]}
+    v["exp_flat"], v["exp_dtype"] = ex(v, "mu")
 
 
 def usable(flat, raw, tag):
@@ -294,7 +338,7 @@ def resolve_vars(var_lists):
             v.setdefault("dtype", "i8")
             v.setdefault("pack", None)
             if is_plain(v):
-                v["exp_flat"], v["exp_dtype"] = list(v["flat"]), v["dtype"]
+                set_plain_exp(v)
             else:
                 todo.append(v)
     replaced = 0
@@ -306,11 +350,20 @@ def resolve_vars(var_lists):
             raise RuntimeError("C12 unpack reference worker failed: rc=%s %s" % (rc, err[-400:]))
         for k, v in enumerate(todo):
             r = rows[k]
-            if "err" in r or not usable(r["flat"], v["flat"], r["dtype"]):
+            good = "err" not in r and len(r.get("opt", {})) == 4
+            for key, e in (r.get("opt") or {}).items():
+                vals = [y for y in e["flat"] if y is not None]
+                good = good and usable(vals, vals, e["dtype"]) and len(e["flat"]) == len(v["flat"])
+                if key[0] == "m":
+                    # masking on: exactly the elements written as the fill value are missing
+                    good = good and [y is None for y in e["flat"]] == [x is None for x in v["flat"]]
+                else:
+                    good = good and all(y is not None for y in e["flat"])
+            if not good:
                 v["__bad"] = True
                 continue
-            v["exp_flat"] = [None if x is None else y for x, y in zip(v["flat"], r["flat"])]
-            v["exp_dtype"] = r["dtype"]
+            v["exp"] = r["opt"]
+            v["exp_flat"], v["exp_dtype"] = ex(v, "mu")
     for vs in var_lists:
         for k, v in enumerate(vs):
             if v.get("__bad"):
@@ -319,16 +372,16 @@ def resolve_vars(var_lists):
         for k, v in enumerate(vs):
             if "twin_of" in v:
                 src = vs[v.pop("twin_of")]
-                for key in ("shape", "flat", "dtype", "pack", "exp_flat", "exp_dtype"):
-                    v[key] = list(src[key]) if isinstance(src[key], list) else (dict(src[key]) if isinstance(src[key], dict) else src[key])
+                for key in ("shape", "flat", "dtype", "pack", "exp_flat", "exp_dtype", "exp"):
+                    v[key] = json.loads(json.dumps(src[key]))
             elif "twin_values_of" in v:
                 # the same VALUES with another data type: equal values, different types, so equals must say
                 # False before and after either is brought into memory
                 src = vs[v.pop("twin_values_of")]
                 ok = src["exp_dtype"] != "f8" and all(x is None or 0 <= x < 100 for x in src["exp_flat"])
                 if ok:
-                    v.update({"shape": src["shape"], "flat": list(src["exp_flat"]), "dtype": "f8", "pack": None,
-                              "exp_flat": list(src["exp_flat"]), "exp_dtype": "f8"})
+                    v.update({"shape": src["shape"], "flat": list(src["exp_flat"]), "dtype": "f8", "pack": None})
+                    set_plain_exp(v)
                 else:
                     v["__drop"] = True
         vs[:] = [v for v in vs if not v.get("__drop")]
@@ -397,8 +450,10 @@ def vname(v):
     return ("/" + v["group"] + "/" if v.get("group") else "") + v["name"]
 
 
-def rand_history(rng, spec, nops):
-    """(heap description, ops) with every operand index valid according to the oracle."""
+def rand_history(rng, spec, nops, key="mu"):
+    """(heap description, ops) with every operand index valid according to the oracle; `key`: the read
+    options.  Half of the histories begin with copy -> subspace of the copy -> its array, before anything
+    else has been fetched."""
     vs = spec["vars"]
     heap_desc, heap = [], []
     for _ in range(rng.randint(1, 3)):
@@ -409,8 +464,20 @@ def rand_history(rng, spec, nops):
         else:
             v = rng.choice(vs)
             heap_desc.append({"var": vname(v)})
-            heap.append(OCell(v["shape"], v["exp_flat"], dtype=v["exp_dtype"]))
+            heap.append(OCell(v["shape"], ex(v, key)[0], dtype=ex(v, key)[1]))
     ops = []
+    if rng.random() < 0.5:
+        i0 = rng.randrange(len(heap))
+        pre = [["copy", i0], ["sub", len(heap), rand_idx(rng, heap[i0].shape, prefer_lists=rng.random() < 0.5)]]
+        oracle_step(heap, pre[0])
+        ops.append(pre[0])
+        if "err" not in oracle_step(heap, pre[1])[0]:
+            ops.append(pre[1])
+            pre.append(["arr", len(heap) - 1])
+            oracle_step(heap, pre[2])
+            ops.append(pre[2])
+        else:
+            ops.append(pre[1])
     for _ in range(nops):
         i = rng.randrange(len(heap))
         # prefer objects still on disk
@@ -738,6 +805,14 @@ def field_cases(rng, fspecs, nper):
                     ["eq", 1, 2], ["tomem", 2], ["str", 2]]})
             for _ in range(nper):
                 ops = []
+                sl = lambda: ["slice", rng.choice([None, 0, 1]), rng.choice([None, 2, 3]), None]  # noqa: E731
+                variant = rng.random()
+                if variant < 0.35:
+                    # copy the field before anything is fetched, subspace the copy, look at all its arrays
+                    ops += [["copy", 0], ["sub", 1, [sl(), sl(), sl()]], ["arr", 2]]
+                elif variant < 0.7:
+                    # subspace the field before anything is fetched, then its constructs' arrays one by one
+                    ops += [["sub", 0, [sl(), sl(), sl()]]] + [["arr1", 1, k_] for k_ in range(rng.randint(2, 6))] + [["arr", 1]]
                 for _k in range(rng.randint(3, 10)):
                     r = rng.random()
                     i = rng.randint(0, 5)
@@ -768,7 +843,7 @@ def field_cases(rng, fspecs, nper):
                         ops.append(["eq", i, rng.randint(0, 5)])
                 ops.append(["arr", 0])
                 be2 = rng.choice(BACKENDS)
-                fcases.append({"spec": s, "backend": be, "backend2": be2, "ops": ops})
+                fcases.append({"spec": s, "backend": be, "backend2": be2, "opts": rand_opts(rng), "ops": ops})
     return fcases
 
 
@@ -832,6 +907,26 @@ def judge_history(chk, c, r, spec, stats):
                      {"input": c, "observed": r["start"]})
     # --- oracle heap; the data type each object declares while on disk is the one its data will have
     heap = []
+    key = optkey(c.get("opts"))
+    want_flags = [key[0] == "m", key[1] == "u"]
+    stats["read_options"][key] = stats["read_options"].get(key, 0) + 1
+
+    def check_flags(when, cells):
+        for k, fl in enumerate(r.get(when) or []):
+            if fl is None or fl == want_flags:
+                continue
+            if cells is not None and k < len(cells) and cells[k].missing:
+                continue      # (the stand-in for a missing file is made with the default options)
+            if cells is None and k < len(c["heap"]) and "missing" in c["heap"][k]:
+                continue
+            out["bad"] = True
+            chk.fail("property", "read-options-lost-by-derived-array",
+                     f"backend {c['backend']}, read(mask={want_flags[0]}, unpack={want_flags[1]}): the file array of "
+                     f"object {k} has (mask, unpack) = {fl} ({'a copy of the data read' if when == 'start_flags' else 'after the history'})",
+                     {"input": c, "expected": want_flags, "observed": fl})
+            break
+
+    check_flags("start_flags", None)
     start_dt = r.get("start_dtype") or []
     declared = []
     if r.get("dtype_log"):
@@ -844,15 +939,16 @@ def judge_history(chk, c, r, spec, stats):
             heap.append(OCell(hc["shape"], [0] * (int(np.prod(hc["shape"])) if hc["shape"] else 1), True, True))
         else:
             v = byname[hc["var"]]
-            heap.append(OCell(v["shape"], v["exp_flat"], dtype=v["exp_dtype"]))
+            eflat, edt = ex(v, key)
+            heap.append(OCell(v["shape"], eflat, dtype=edt))
             stats["stored_types"][v["dtype"]] = stats["stored_types"].get(v["dtype"], 0) + 1
             stats["pack_kinds"][pack_kind(v)] = stats["pack_kinds"].get(pack_kind(v), 0) + 1
-            if got_dt != NPNAME[v["exp_dtype"]]:
+            if got_dt != NPNAME[edt]:
                 out["bad"] = True
                 chk.fail("property", "declared-dtype-differs-from-realised",
                          f"backend {c['backend']}: Data.dtype of {hc['var']} ({v['dtype']}, packing {v.get('pack')}) is "
-                         f"{got_dt} while the data are on disk, {NPNAME[v['exp_dtype']]} once they are in memory",
-                         {"input": c, "expected": NPNAME[v["exp_dtype"]], "observed": got_dt})
+                         f"{got_dt} while the data are on disk, {NPNAME[edt]} once they are in memory (read options {key})",
+                         {"input": c, "expected": NPNAME[edt], "observed": got_dt})
     observed = []
     bad_case = out["bad"]
     for op, st in zip(c["ops"], r["steps"]):
@@ -943,6 +1039,8 @@ def judge_history(chk, c, r, spec, stats):
                 chk.fail("property", "fetch-not-what-was-asked", f"{op}: raised, but {fetched} elements were fetched first",
                          {"input": c, "op": op, "observed": st["log"]})
         observed.append((got, events))
+    check_flags("final_flags", heap)
+    bad_case = bad_case or out["bad"]
     out["bad"] = bad_case
     if any(any(e[0] == "stray" for e in ev) for _, ev in observed):
         chk.fail("correspondence", "trace-shape", "open/close logged outside a file array __getitem__",
@@ -951,16 +1049,74 @@ def judge_history(chk, c, r, spec, stats):
     # --- literal for the model
     vars_lit = glist(list(enumerate(spec["vars"])),
                      lambda kv: f"(0%Z, {gz(kv[0])}, {glist(kv[1]['shape'], gnat)}, {CODE[kv[1].get('dtype', 'i8')]}%Z, "
-                                f"{g_pack(kv[1].get('pack'))}, {glist(kv[1]['flat'], g_oz)})")
+                                f"{g_pack(kv[1].get('pack'))}, {gz(fill_of(kv[1].get('dtype', 'i8')))}, "
+                                f"{glist(kv[1]['flat'], g_oz)})")
+    g_fl = f"(mk_flags ({gbool(want_flags[0])}, {gbool(want_flags[1])}))"
     heap_lit = glist(list(zip(c["heap"], declared)), lambda hd: (
-        f"(OnDisk 1%Z 0%Z {glist(hd[0]['shape'], gz)} I8)" if "missing" in hd[0] else
-        f"(OnDisk 0%Z {gz(var_ids[hd[0]['var']])} {glist(byname[hd[0]['var']]['shape'], gz)} {g_dt(hd[1])})"))
+        f"(OnDisk 1%Z 0%Z {glist(hd[0]['shape'], gz)} I8 flags_default)" if "missing" in hd[0] else
+        f"(OnDisk 0%Z {gz(var_ids[hd[0]['var']])} {glist(byname[hd[0]['var']]['shape'], gz)} {g_dt(hd[1])} {g_fl})"))
     obs_lit = glist(observed, lambda oe: f"({g_obs(oe[0])}, {glist(oe[1], g_event)})")
     out["lit"] = (f"(({vars_lit}, {heap_lit}, {gbool(c['backend'] == 'h5netcdf')}, {glist(c['ops'], g_op)}, {obs_lit}) : ops_case)")
     nontriv = any(o[0] in ("sub", "set") and not C03.trivial_idx(o[2]) for o in c["ops"])
     if nontriv:
-        out["key"] = lib.canon({"f": spec, "h": c["heap"], "o": c["ops"], "b": c["backend"]})
+        out["key"] = lib.canon({"f": spec, "h": c["heap"], "o": c["ops"], "b": c["backend"], "k": key})
     return out
+
+
+def judge_sweep(chk, label, roles, options, stats, olits, olit_case):
+    """Dataset cases under non-default read options (worker mode "sweep")."""
+    base = {}
+    for k in roles:
+        base.setdefault(k.split("/")[-1], k)
+    var_ids = {k: n for n, k in enumerate(sorted(roles))}
+
+    def cf_shape(k):
+        sh = roles[k]["shape"]
+        return sh[:-1] if roles[k]["dtype"] == "|S1" and sh else sh
+
+    def g_var(k):
+        tag = roles[k].get("tag")
+        pkd = roles[k].get("pack") or {}
+        if tag not in CODE:
+            tag, pkd = "f8", {}
+        pkd = {a: (None if b == "other" else b) for a, b in pkd.items()}
+        return f"({gz(var_ids[k])}, {glist(cf_shape(k), gz)}, {roles[k]['role']}, {CODE[tag]}%Z, {g_pack(pkd)})"
+
+    r = {"options": options}
+    # --- the three non-default combinations of the read options
+    SIG = {"flags-after-read": "read-options-lost-by-derived-array", "flags-of-copy": "read-options-lost-by-derived-array",
+           "flags-of-field-copy": "read-options-lost-by-derived-array", "declared-dtype": "declared-dtype-differs-from-realised",
+           "copy-not-equal": "equality-changed-by-copying", "memory-copy-not-equal": "equality-changed-by-bringing-into-memory"}
+    for okey, perbe in sorted((r.get("options") or {}).items()):
+        ofps = {}
+        for be in BACKENDS:
+            e = perbe.get(str(be))
+            if e is None:
+                continue
+            if "err" in e:
+                chk.fail("property", "backend-cannot-read", f"{label}: read with backend {be}, options {okey} raised {e['err']}",
+                         {"input": label, "observed": e})
+                continue
+            stats["option_sweep_objects"] += e.get("n", 0)
+            for b in e["bad"][:6]:
+                chk.fail("property", SIG.get(b[0], "lazy-differs-from-eager"),
+                         f"{label} ({be}, read options {okey}): {b[0]}: {str(b[1:])[:260]}",
+                         {"input": {"spec": label, "backend": be, "options": okey}, "observed": b})
+            if e.get("open"):
+                chk.fail("property", "file-left-open-after-access", f"{label} ({be}, {okey}): open {e['open']}", {"input": label})
+            ofps[str(be)] = e.get("fp")
+            dts = set()
+            for ncvar, dt0 in e.get("dtypes", []):
+                k = ncvar if ncvar in roles else base.get(str(ncvar).split("/")[-1])
+                if k in var_ids and roles[k].get("tag") in CODE and dt0 in TAG_OF:
+                    dts.add((var_ids[k], CODE[TAG_OF[dt0]]))
+            olits.append("((" + glist(sorted(roles), g_var)
+                         + f", {gbool(be == 'h5netcdf')}, ({gbool(okey[0] == 'm')}, {gbool(okey[1] == 'u')}), "
+                         + "[], [], " + glist(sorted(dts), lambda x: f"({gz(x[0])}, {gz(x[1])})") + ") : read_case)")
+            olit_case.append((label, be, okey))
+        if len(set(ofps.values())) > 1:
+            chk.fail("property", "backends-differ", f"{label}: under read options {okey} the backends give different data: {ofps}",
+                     {"input": label, "observed": ofps})
 
 
 # ---------------------------------------------------------------- the check
@@ -969,7 +1125,8 @@ def run(chk, model_ok):
     T = chk.tier == "thorough"
     scratch = chk.scratch
     stats = {"ops": {}, "errors": {}, "backends": {}, "read_labels": {}, "roles_fetched": {}, "fieldops": {},
-             "stored_types": {}, "pack_kinds": {}, "dtype_checks": 0, "packed_read_vars": 0}
+             "stored_types": {}, "pack_kinds": {}, "dtype_checks": 0, "packed_read_vars": 0, "read_options": {},
+             "option_sweep_objects": 0, "field_options": {}}
     ncorr = 0
     import time
     phase = {}
@@ -987,7 +1144,7 @@ def run(chk, model_ok):
 
     # ======================================================== 1. histories over integer files
     nfiles = 300 if T else 36
-    per_file = 40 if T else 26
+    per_file = 40 if T else 22
     files = [rand_file(rng) for _ in range(nfiles)]
     for c in CORPUS_OPS:
         files.append({"vars": [dict(v) for v in c["vars"]]})
@@ -997,13 +1154,16 @@ def run(chk, model_ok):
     cases = []
     for k_, c in enumerate(CORPUS_OPS):
         cfile = nfiles + k_
+        packed_corpus = any(not is_plain(v) for v in files[cfile]["vars"])
         for be in BACKENDS:
-            heap = [({"missing": True, "shape": [int(h[1:])]} if h.startswith("?") else {"var": h}) for h in c["heap"]]
-            cases.append({"file": cfile, "backend": be, "heap": heap, "ops": c["ops"], "fam": "corpus"})
+            for o in (OPTS if packed_corpus else OPTS[:1]):
+                heap = [({"missing": True, "shape": [int(h[1:])]} if h.startswith("?") else {"var": h}) for h in c["heap"]]
+                cases.append({"file": cfile, "backend": be, "opts": dict(o), "heap": heap, "ops": c["ops"], "fam": "corpus"})
     for k in range(nfiles):
         for _ in range(per_file):
-            heap, ops = rand_history(rng, files[k], rng.randint(3, 10))
-            cases.append({"file": k, "backend": rng.choice(BACKENDS), "heap": heap, "ops": ops, "fam": "history"})
+            o = rand_opts(rng)
+            heap, ops = rand_history(rng, files[k], rng.randint(3, 10), optkey(o))
+            cases.append({"file": k, "backend": rng.choice(BACKENDS), "opts": o, "heap": heap, "ops": ops, "fam": "history"})
     # every worker gets whole files (the worker caches the read of a file per backend)
     nworkers = 24 if T else 14
     for i, c in enumerate(cases):
@@ -1023,6 +1183,19 @@ def run(chk, model_ok):
         c["i"] = i
         groups.append(("read", {"mode": "read", "scratch": scratch, "cases": [c]}, [c]))
 
+    # the dataset cases under the non-default read options: one worker per (dataset, combination); the quick tier
+    # gives each dataset one combination in rotation and the packed family all three
+    COMBOS = [[False, True], [True, False], [False, False]]
+    scases = []
+    for i, s_ in enumerate(specs):
+        for j, cmb in enumerate(COMBOS):
+            if T or s_["label"] == "packed" or j == i % 3:
+                # (quick tier: the default backend, which is the netCDF4 one, is left to the full dataset cases)
+                scases.append({"spec": s_, "combos": [cmb], "backends": BACKENDS if (T or s_["label"] == "packed") else ["netCDF4", "h5netcdf"]})
+    for i, c in enumerate(scases):
+        c["i"] = i
+        groups.append(("sweep", {"mode": "sweep", "scratch": scratch, "cases": [c]}, [c]))
+
     # histories over whole fields: one worker per dataset (the file is built once)
     fspecs = [s_ for s_ in specs if s_["kind"] == "example"] + [s_ for s_ in specs if s_["kind"] == "hand"][:(24 if T else 8)]
     fcases = field_cases(rng, fspecs, 8 if T else 2)
@@ -1033,11 +1206,11 @@ def run(chk, model_ok):
         groups.append(("fieldops", {"mode": "fieldops", "scratch": scratch, "cases": mine}, mine))
 
     # heavy datasets first; everything is started through one pool
-    weight = {"fieldops": 0, "read": 1, "ops": 2}
+    weight = {"fieldops": 0, "read": 1, "sweep": 1, "ops": 2}
     groups.sort(key=lambda g: (weight[g[0]], -len(json.dumps(g[1]["cases"][0].get("spec", {}).get("label", "")))))
     res = lib.run_workers_parallel("drive/c12.py", [g[1] for g in groups], jobs=16)
-    rows, rrows, frows = [None] * len(cases), [None] * len(rcases), [None] * len(fcases)
-    target = {"ops": rows, "read": rrows, "fieldops": frows}
+    rows, rrows, frows, srows = [None] * len(cases), [None] * len(rcases), [None] * len(fcases), [None] * len(scases)
+    target = {"ops": rows, "read": rrows, "fieldops": frows, "sweep": srows}
     for (mode, payload, mine), (rc, out, err) in zip(groups, res):
         got = 0
         for r in out:
@@ -1081,6 +1254,7 @@ def run(chk, model_ok):
     mark("histories_check_and_coq")
     # ======================================================== 2. reads: backends, laziness, open files
     rlits, rlit_case = [], []
+    olits, olit_case = [], []
     for c, r in zip(rcases, rrows):
         if r is None:
             continue
@@ -1098,6 +1272,14 @@ def run(chk, model_ok):
         def cf_shape(k):
             sh = roles[k]["shape"]
             return sh[:-1] if roles[k]["dtype"] == "|S1" and sh else sh
+
+        def g_var(k):
+            tag = roles[k].get("tag")
+            pkd = roles[k].get("pack") or {}
+            if tag not in CODE:
+                tag, pkd = "f8", {}
+            pkd = {a: (None if b == "other" else b) for a, b in pkd.items()}
+            return f"({gz(var_ids[k])}, {glist(cf_shape(k), gz)}, {roles[k]['role']}, {CODE[tag]}%Z, {g_pack(pkd)})"
 
         fps = {}
         for be in BACKENDS:
@@ -1218,16 +1400,8 @@ def run(chk, model_ok):
                          f"{label} ({be}): values differ from an eager netCDF4-python read: {e['raw_mismatch'][:2]}",
                          {"input": label, "observed": e["raw_mismatch"][:3]})
             fps[str(be)] = e["fp"]
-            def g_var(k):
-                tag = roles[k].get("tag")
-                pkd = roles[k].get("pack") or {}
-                if tag not in CODE:
-                    tag, pkd = "f8", {}
-                pkd = {a: (None if b == "other" else b) for a, b in pkd.items()}
-                return f"({gz(var_ids[k])}, {glist(cf_shape(k), gz)}, {roles[k]['role']}, {CODE[tag]}%Z, {g_pack(pkd)})"
-
             rlits.append("((" + glist(sorted(roles), g_var)
-                         + f", {gbool(be == 'h5netcdf')}, {glist(sorted(fetched_ids), gz)}, {glist(sorted(inmem_ids), gz)}, "
+                         + f", {gbool(be == 'h5netcdf')}, (true, true), {glist(sorted(fetched_ids), gz)}, {glist(sorted(inmem_ids), gz)}, "
                          + glist(sorted(dts), lambda x: f"({gz(x[0])}, {gz(x[1])})") + ") : read_case)")
             rlit_case.append((label, be, e["fetched"]))
         if len(set(fps.values())) > 1:
@@ -1254,6 +1428,27 @@ def run(chk, model_ok):
                      f"type a Data object declares after read: {label} ({be}): fetched {fetched[:6]}",
                      {"correspondence": "C12.Run.check_read", "input": label, "observed": fetched[:10]})
 
+    for c, r in zip(scases, srows):
+        if r is None:
+            continue
+        label = c["spec"]["label"]
+        if "harness_err" in r:
+            chk.fail("correspondence", "harness-error", r["harness_err"], {"correspondence": "drive/c12.py sweep", "input": label})
+            continue
+        judge_sweep(chk, label, r["roles"], r["options"], stats, olits, olit_case)
+        if r.get("open_end"):
+            chk.fail("property", "file-left-open-after-access", f"{label}: open at the end of the options sweep {r['open_end']}",
+                     {"input": label})
+    if model_ok and olits:
+        bad = lib.coq_bad_indices("C12", REQ, "check_read_dtypes", olits, chunk=60)
+        ncorr += len(olits)
+        for i in bad[:20]:
+            label, be, okey = olit_case[i]
+            chk.fail("correspondence", "model-vs-impl:read",
+                     f"model and implementation disagree on the data type a Data object declares after a read with options "
+                     f"{okey}: {label} ({be})",
+                     {"correspondence": "C12.Run.check_read_dtypes", "input": label, "observed": okey})
+
     mark("reads_check_and_coq")
     # ======================================================== 3. histories over whole fields
     nfsteps = 0
@@ -1264,13 +1459,15 @@ def run(chk, model_ok):
         if "harness_err" in r:
             chk.fail("correspondence", "harness-error", r["harness_err"], {"correspondence": "drive/c12.py fieldops", "input": label})
             continue
+        fkey = optkey(c.get("opts"))
+        stats["field_options"][fkey] = stats["field_options"].get(fkey, 0) + 1
         for op, st in zip(c["ops"], r["steps"]):
             nfsteps += 1
             stats["fieldops"][op[0]] = stats["fieldops"].get(op[0], 0) + 1
             if st["lazy"] != st["eager"]:
                 chk.fail("property", "lazy-differs-from-eager",
-                         f"{label} ({c['backend']} vs in-memory {c['backend2']}): {op} gave {str(st['lazy'])[:120]} lazily and {str(st['eager'])[:120]} eagerly",
-                         {"input": {"spec": label, "backend": c["backend"], "ops": c["ops"]}, "op": op})
+                         f"{label} ({c['backend']} vs in-memory {c['backend2']}, read options {fkey}): {op} gave {str(st['lazy'])[:120]} lazily and {str(st['eager'])[:120]} eagerly",
+                         {"input": {"spec": label, "backend": c["backend"], "opts": c.get("opts"), "ops": c["ops"]}, "op": op})
             if st["open"] or st["unclosed"]:
                 chk.fail("property", sig_open(str(st["lazy"]).startswith("raised")),
                          f"{label} ({c['backend']}): {op} left {st['open']} open ({st['unclosed']} unclosed)",
@@ -1289,7 +1486,8 @@ def run(chk, model_ok):
             chk.fail("property", "file-left-open-after-access", f"{label}: {r['open_end']} open at the end", {"input": label})
 
     chk.coverage.update({
-        "evaluations": nsteps + nfsteps + 3 * len(rcases),
+        "evaluations": nsteps + nfsteps + 3 * len(rcases) + sum(len(c_["backends"]) for c_ in scases),
+        "dataset_reads_under_non_default_options": sum(len(c_["backends"]) for c_ in scases),
         "distinct_nontrivial": len(distinct),
         "rule": "a history is non-trivial when it contains a subspace or an assignment whose index is not all full slices; "
                 "distinct by canonical JSON of (file contents, starting objects, operations, backend)",
@@ -1305,6 +1503,8 @@ def run(chk, model_ok):
         "data_objects_checked_for_dtype_and_equality_in_memory": stats["dtype_checks"],
         "of_which_packed_or_unsigned": stats["packed_read_vars"],
         "history_variables_replaced_because_reference_inexact": stats.get("inexact_variables_replaced", 0),
+        "read_options_of_histories": stats["read_options"], "read_options_of_field_histories": stats["field_options"],
+        "data_objects_checked_under_non_default_read_options": stats["option_sweep_objects"],
         "phase_seconds": phase,
         "exhaustive": False,
     })
@@ -1339,7 +1539,7 @@ def replay(chk, path):
             continue
         spec = {"vars": [{k: x for k, x in v.items() if not k.startswith("exp_")} for v in c["vars"]]}
         resolve_vars([spec["vars"]])
-        case = {"i": 0, "file": 0, "backend": c.get("backend"), "heap": c["heap"], "ops": c["ops"]}
+        case = {"i": 0, "file": 0, "backend": c.get("backend"), "opts": c.get("opts"), "heap": c["heap"], "ops": c["ops"]}
         rc, out, err = lib.run_worker("drive/c12.py", {"mode": "ops", "scratch": chk.scratch, "files": {"0": spec},
                                                         "cases": [case]})
         rows = [r for r in out if isinstance(r, dict) and "i" in r]
@@ -1349,7 +1549,7 @@ def replay(chk, path):
             continue
         n0 = len(chk.failures)
         res = judge_history(chk, case, rows[0], spec, {"ops": {}, "errors": {}, "backends": {}, "stored_types": {},
-                                                       "pack_kinds": {}})
+                                                       "pack_kinds": {}, "read_options": {}})
         fails = chk.failures[n0:]
         if res["lit"] is not None:
             try:
